@@ -328,6 +328,9 @@ words!(M40d, 22, u64, 5, 48, true);
 words_drop!(M40d, 22);
 words!(H72d, 23, u64, 9, 48, true);
 words_drop!(H72d, 23);
+// larger than 64 KiB (sizes and offsets that do not fit 16 bits); only used by the scale workloads
+words!(G65Kd, 26, u64, 8200, 48, true);
+words_drop!(G65Kd, 26);
 
 // ---------------------------------------------------------------------------------------------
 // heap-owning types: a duplicated / lost payload is also a tool report (double free / leak)
